@@ -16,7 +16,8 @@ from contracts import spec as SP
 from contracts.C02 import forall_b, forall_n, forall_real, goal_over_paths, arr, density_spec, pit_requires
 
 # property-level native oracle used as the replay of refuted obligations that carry no model-specific replay
-FALLBACK_REPLAY = {"handler": "bounded", "input": {"what": "section_equivalence"},
+FALLBACK_REPLAY = {"handler": "bounded_named", "input": {"what": "section_equivalence",
+                                                         "check": "sectioned-pipe-equals-pipes-in-series-for-every-labelling-and-orientation"},
                    "expected": "a sectioned pipe equals its sections in series for every labelling order and orientation"}
 
 BR = "pandapipes.idx_branch"
@@ -314,13 +315,15 @@ def section_equivalence_bounded(ctx):
     """property-level bounded stand-in (np.repeat / argsort placement code of the multi-section pipes) and fallback replay"""
     from pvc.harness import venv_run
     inp = {"what": "section_equivalence"}
-    res = venv_run("bounded.py", inp, timeout=3000)
-    ctx.bounded("sectioned-pipe-equals-pipes-in-series-for-every-labelling-and-orientation", res["ok"],
-                "one water network (4 junctions at different heights, 3 pipes with 2 / 3 / 1 sections, heat losses, sequential mode, "
-                "feed temperature = start temperature): all 6 assignments of the pipe labels x 3 sets of pipes drawn against the flow x "
-                "use_numba False/True, each against the network with every pipe split into single-section pipes in series: outlet "
-                "temperature, end pressure and mass flow of every pipe (rtol 1e-5)",
-                res["cases"], witness=res["witness"], replay={"handler": "bounded", "input": inp} if not res["ok"] else None)
+    res = venv_run("bounded.py", inp, timeout=3000)["checks"]
+    scope = ("one water network (4 junctions at different heights, 3 pipes with 2 / 3 / 1 sections, heat losses, sequential mode, "
+             "feed temperature = start temperature): all 6 assignments of the pipe labels x 3 sets of pipes drawn against the flow x "
+             "use_numba False/True, each against the network with every pipe split into single-section pipes in series: outlet "
+             "temperature, end pressure and mass flow of every pipe (rtol 1e-5); separately: forward vs reversed pipes in hydraulics "
+             "mode with a feed temperature (360 K) different from the start temperature (320 K)")
+    for k, v in res.items():
+        ctx.bounded(k, v["ok"], scope, v["cases"], witness=v.get("witness"),
+                    replay={"handler": "bounded_named", "input": {"what": "section_equivalence", "check": k}} if not v["ok"] else None)
 
 
 @unit("C09", "thermal_kernel/numpy", functions=["pandapipes.pf.derivative_toolbox:derivatives_thermal_np"], engine="E2")
